@@ -707,6 +707,12 @@ MODELS = {'m_memcmp', 'm_free', 'm_malloc', 'm_posix_memalign', 'm_abort', 'm_st
           '__cxa_pure_virtual', '_ZSt17__throw_bad_allocv', '_ZSt20__throw_length_errorPKc', '_ZSt28__throw_bad_array_new_lengthv',
           '_ZNSt8ios_base4InitC1Ev', '_ZNSt8ios_base4InitD1Ev', '__CPROVER_assume', '__CPROVER_assert', '__CPROVER_atomic_begin', '__CPROVER_atomic_end', '_ZSt19__throw_logic_errorPKc', '_ZSt24__throw_out_of_range_fmtPKcz', '__assert_fail', 'pthread_self', 'pthread_mutex_lock', 'pthread_mutex_unlock', 'pthread_mutex_trylock', '_ZSt20__throw_system_errori', '_ZNSt12length_errorC1EPKc', '_ZNSt12length_errorD1Ev', '_ZNSt9bad_allocD1Ev', '_ZNSt11logic_errorC1EPKc', '_ZNSt11logic_errorD1Ev', '_ZNSt9exceptionD1Ev', '_ZNSt9exceptionD2Ev'}
 
+# externals of the compiled part of libstdc++ for which "return zero" is a functionally exact model
+BENIGN_ZERO = {
+    '_ZNKSt8__detail20_Prime_rehash_policy14_M_need_rehashEmmm':
+        'std::__detail::_Prime_rehash_policy::_M_need_rehash -> {false, 0}: the hash table never grows its bucket array; it stays a correct (single-bucket chain) multiset, only slower',
+}
+
 PRELUDE = r'''
 #include <stdint.h>
 #include <stddef.h>
@@ -1013,6 +1019,9 @@ def translate(mod, opts):
         hdr = '%s %s(%s)' % (cx.cty(f.ret), cn, ps)
         protos.append(hdr + ';')
         if cn in opts.extern_c: continue
+        if cn in BENIGN_ZERO:
+            stubs.append(hdr + ' { return %s; } /* %s */' % (FnEmit(cx, f).zero(f.ret), BENIGN_ZERO[cn]))
+            continue
         stubs.append(hdr + ' { __CPROVER_assert(0, "reached unmodeled external %s"); __CPROVER_assume(0); return %s; }' % (cn[:70], FnEmit(cx, f).zero(f.ret) if cx.res(f.ret).kind != 'void' else ''))
     for ti in ('_ZTISt9bad_alloc', '_ZTISt12length_error', '_ZTISt9exception', '_ZTISt12system_error', '_ZTISt11logic_error'):
         if '@' + ti not in mod.globals: gdef.append('uint8_t g_%s[8];' % ti)
